@@ -179,11 +179,58 @@ def leg_exotic(part, tier, shard, nshards):
     drive(part, "exotic-ids", exotic_cases(tier), shard, nshards, check_exotic)
 
 
+# -- entries whose id is a translated object (class translation on): the other entries of the batch are still answered one-to-one ----
+
+BEAN_IDS = [{"__jsonclass__": ["decimal.Decimal", ["1.5"]]}, {"__jsonclass__": ["mc.ref.beans.Plain", []], "a": 2}, [{"__jsonclass__": ["decimal.Decimal", ["2"]]}]]
+
+
+def beanid_cases(tier):
+    for bi in range(len(BEAN_IDS)):
+        for kind in ("ok", "raise", "unknown", "arity", "badser", "retfault"):
+            for form in ("2.0", "1.0"):
+                for shape in ("first", "last", "middle", "alone"):
+                    for wi in (0, 4):
+                        yield (bi, kind, form, shape, wi)
+
+
+def check_beanid(case):
+    import json
+
+    from mc import gen
+    from mc.core import Out
+
+    bi, kind, form, shape, wi = case
+    out = Out(cls="bean-id/%s/%s" % (kind, shape))
+    w = sc.world(WORLDS[wi])
+    e = entry(kind, BEAN_IDS[bi], form)
+    a, b = entry("ok", "before", "2.0"), entry("ok", "after", "1.0")
+    batch = {"first": [e, a, b], "last": [a, b, e], "middle": [a, e, b], "alone": [e]}[shape]
+    body = B.dumps(batch)
+    try:
+        reply = w.run(body)
+        r = json.loads(reply)
+    except Exception as ex:
+        return out.bad("C03/bean-id/raises-or-unparsable", "body %r: %r" % (body, ex))
+    if not isinstance(r, list) or len(r) != len(batch):
+        return out.bad("C03/response-count-or-shape", "body %r (an entry whose id is a translated object): reply %r, expected %d response objects" % (body, reply, len(batch)))
+    for pos, (req, resp) in enumerate(zip(batch, r)):
+        if req is e:
+            continue
+        if not isinstance(resp, dict) or not gen.same(resp.get("id"), req["id"]) or "result" not in resp:
+            out.bad("C03/id-not-echoed/next-to-an-object-id", "body %r: response #%d is %r" % (body, pos, resp))
+    return out
+
+
+def leg_beanid(part, tier, shard, nshards):
+    from mc.core import drive
+    drive(part, "object-ids", beanid_cases(tier), shard, nshards, check_beanid)
+
+
 def leg_scale(part, tier, shard, nshards):
     sc.body_leg(part, "scale", PROPS, sc.scale_cases(tier, [WORLDS[0], WORLDS[5], WORLDS[6], WORLDS[8]]), shard, nshards)
 
 
-LEGS = {"single": leg_single, "batch": leg_batch, "exotic-ids": leg_exotic, "scale": leg_scale}
+LEGS = {"single": leg_single, "batch": leg_batch, "exotic-ids": leg_exotic, "object-ids": leg_beanid, "scale": leg_scale}
 
 META = {
     "technique": "bounded-exhaustive enumeration of request entries and batch compositions against a reference server model (type-exact id comparison)",
@@ -192,7 +239,7 @@ META = {
     "custom returning, custom raising, instance with raising _dispatch}, version given as integer, and configurations with serialisation handlers for "
     "float/str/int (which rewrite result values and must leave ids alone); exotic-ids: 19 ids written with unusual code points (lone and paired surrogates, NUL, U+2028, BOM, raw and escaped non-ASCII, "
     "quote, backslash, exponent and 20-digit numbers) x 5 outcomes x forms x 4 worlds and every pair of them in a batch, through the dispatcher and through "
-    "the real HTTP handler (bytes on the wire); scale: batches of 1001/1025/2500 (thorough 20000) entries "
+    "the real HTTP handler (bytes on the wire); object-ids: an entry of every outcome kind whose id is a translated object, alone and first / in the middle / last among ordinary calls (the others are answered one-to-one); scale: batches of 1001/1025/2500 (thorough 20000) entries "
     "(calls, notifications, mixed, failing) and ids/parameters 25-150 (thorough 300) levels deep or that long; every case is non-trivial (each yields at least one id/count obligation)",
     "bounds": {"quick": {"batch_len": 3, "alphabet": 24}, "thorough": {"batch_len": 4, "alphabet": 24}},
     "assumptions": [
@@ -203,6 +250,8 @@ META = {
 
 
 def replay(case):
+    if case["leg"] == "object-ids":
+        return check_beanid(eval(case["case"], {"__builtins__": {}}, {})).viols
     if case["leg"] == "exotic-ids":
         return check_exotic(eval(case["case"], {"__builtins__": {}}, {})).viols
     return sc.replay_body(PROPS, case)
